@@ -84,38 +84,55 @@ def radiation_sum(ck, sh, mm, gname, scale):
             return g
 
         def replay(c, gn, out, th=th, ph=ph):
-            return replay_sum(mm, gname, [complex(x) for x in c['I']])
+            return replay_sum(mm, gname, [complex(x) for x in c['I']], req=(th, dth, ph, dph))
         prove_paths(ck, 'sum-%s-%g-%g-x%g' % (gname, th, ph, scale), fn, goals, replay, max_paths=16, fork_policy='assume', twin_timeout_ms=500)
     ck.bounds.setdefault('radiation_sum', []).append('%s: directions %s, |Re I|,|Im I| <= %g' % (gname, dirs, scale))
 
 
-def replay_sum(mm, gname, I):
-    """The property's own sentence on the real code: code vs radiation sum within 1e-4 of the
-    pattern maximum, over a 10-degree sphere grid."""
-    m = catalogue.build(mm, gname)
-    m.current = np.array(I, dtype=complex)
-    m.power = 1.0
-    gnd = m.media is not None
-    zen = mm.Angle(0.0, 10.0, 10 if gnd else 19)
-    azi = mm.Angle(0.0, 10.0, 36)
-    m.compute_far_field(zen, azi)
-    ff = m.far_field
-    ref_t = np.zeros(ff.e_theta.shape, dtype=complex)
-    ref_p = np.zeros(ff.e_theta.shape, dtype=complex)
-    for a in range(ff.zen.shape[0]):
-        for t in range(ff.zen.shape[1]):
-            at, ap = farfield.coefficients(m, ff.zen[a][t], ff.azi[a][t])
-            ref_t[a][t] = sum(x * i for x, i in zip(at, m.current))
-            ref_p[a][t] = sum(x * i for x, i in zip(ap, m.current))
-    mx = max(np.abs(ref_t).max(), np.abs(ref_p).max(), 1e-300)
-    err = max(np.abs(ref_t - ff.e_theta).max(), np.abs(ref_p - ff.e_phi).max())
-    if err <= 1e-4 * mx:
-        return None
-    a, t = np.unravel_index(np.argmax(np.abs(ref_t - ff.e_theta) + np.abs(ref_p - ff.e_phi)), ref_t.shape)
-    return ('C10:radiation-sum:%s' % ('ground' if gnd else 'free'),
-            '%s: far field deviates from the radiation sum of the pulse currents by %.3g of the pattern maximum '
-            '(theta=%g phi=%g: E_theta %r vs %r)' % (gname, err / mx, ff.zen[a][t], ff.azi[a][t], ff.e_theta[a][t], ref_t[a][t]),
-            dict(kind='sum', geometry=gname))
+def replay_sum(mm, gname, I, req=None):
+    """The property's own sentence on the real code: code vs radiation sum within 1e-4 of the pattern maximum, over a
+    10-degree sphere grid, over the very request that gave the candidate (2 x 2) and over a square 3 x 3 request."""
+    I = np.array(I, dtype=complex)
+    if np.abs(I).max() < 1e-9:
+        I = np.array([complex(1 + 0.3 * k, 0.5 - 0.2 * k) for k in range(len(I))])
+    m0 = catalogue.build(mm, gname)
+    gnd = m0.media is not None
+    grids = [(mm.Angle(0.0, 10.0, 10 if gnd else 19), mm.Angle(0.0, 10.0, 36))]
+    if req is not None:
+        th, dth, ph, dph = req
+        grids.append((mm.Angle(th, dth, 2), mm.Angle(ph, dph, 2)))
+        grids.append((mm.Angle(min(th, 60.0), 11.0, 3), mm.Angle(ph, 47.0, 3)))
+    for zen, azi in grids:
+        m = catalogue.build(mm, gname)
+        m.current = I
+        m.power = 1.0
+        m.compute_far_field(zen, azi)
+        ff = m.far_field
+        ref_t = np.zeros(ff.zen.shape, dtype=complex)
+        ref_p = np.zeros(ff.zen.shape, dtype=complex)
+        for a in range(ff.zen.shape[0]):
+            for t in range(ff.zen.shape[1]):
+                if gnd and ff.zen[a][t] > 90:
+                    continue
+                at, ap = farfield.coefficients(m, ff.zen[a][t], ff.azi[a][t])
+                ref_t[a][t] = sum(x * i for x, i in zip(at, m.current))
+                ref_p[a][t] = sum(x * i for x, i in zip(ap, m.current))
+        ok = ~((ff.zen > 90) & gnd)
+        et, ep = np.asarray(ff.e_theta), np.asarray(ff.e_phi)
+        if et.shape != ref_t.shape or ep.shape != ref_p.shape:
+            return ('C10:radiation-sum:shape', '%s: far-field arrays of a %d x %d request have shapes %s / %s' % (gname, zen.number, azi.number, et.shape, ep.shape),
+                    dict(kind='sum', geometry=gname))
+        mx = max(np.abs(ref_t[ok]).max(), np.abs(ref_p[ok]).max(), 1e-300)
+        err = max(np.abs(ref_t - et)[ok].max(), np.abs(ref_p - ep)[ok].max())
+        if err > 1e-4 * mx:
+            dd = (np.abs(ref_t - et) + np.abs(ref_p - ep)) * ok
+            a, t = np.unravel_index(np.argmax(dd), ref_t.shape)
+            return ('C10:radiation-sum:%s' % ('ground' if gnd else 'free'),
+                    '%s, request %d zenith x %d azimuth angles: far field deviates from the radiation sum of the pulse currents by %.3g of the pattern maximum '
+                    '(theta=%g phi=%g: E_theta %r vs %r, E_phi %r vs %r)' % (gname, zen.number, azi.number, err / mx, ff.zen[a][t], ff.azi[a][t],
+                                                                         complex(et[a][t]), complex(ref_t[a][t]), complex(ep[a][t]), complex(ref_p[a][t])),
+                    dict(kind='sum', geometry=gname))
+    return None
 
 
 def tables(ck, sh, mm, gname):
